@@ -299,16 +299,64 @@ def run(ctx):
             ends = [b for b, t in fd.calls() if b in reg and t.j.get("callee_name") == "to_string"]
             ok = bool(sym) and bool(ends) and bool(stat) and prim.must_pass(fd, tgt, ends, [stat[0][0]] + sym)
             ctx.ob("R2", "%y-decided-by-entry-type", ok, "every path through the type directive passes the entry-type test or %%Y's stat (blocks %s / %s before %s)" % (sym, [b for b, _ in stat], ends), fn=fd, where=prim.site(fd, tgt), how="must-pass-through")
-        # ---- R5 %H information flow
+        # ---- R5 %H information flow: the starting point as given cannot be recomputed from (entry path, depth) — `d/`+`x`
+        # and `d`+`x` are the same path, Path::ancestors drops trailing and repeated separators — so it has to travel from
+        # the command line to the entry
         gs = ctx.fn("R5", P + "get_starting_point")
         if gs is not None:
-            o = prim.origin_of_local(gs, 0)
-            srcs = sorted({c.a["callee"] for c in o.call_nodes() if c.a["callee"].startswith(M)})
-            fields = sorted({str(x.a) for x in o.walk() if x.k == "field"})
-            only_path_depth = set(srcs) <= {E + "WalkEntry::path", E + "WalkEntry::depth"} and not fields
-            ctx.ob("R5", "%H-has-the-root-among-its-sources", not only_path_depth,
-                   "the starting point printed by %%H (and stripped by %%P) is computed as %s from %s only: the spelling given on the command line cannot be recovered from (path, depth) — `d/`+`x` and `d`+`x` are the same path, Path::ancestors drops trailing and repeated separators — so %%H prints `./d` for `find ./d//` and %%H/%%P does not recompose %%p" % (o.fmt()[:200], [prim.short(s) for s in srcs]),
+            o = prim.origin_of_local(gs, 0).strip()
+            prim_src = None
+            if o.k == "call" and o.a["name"] in ("unwrap_or_else", "unwrap_or", "map_or", "map_or_else") and o.kids:
+                prim_src = o.kids[0].strip()
+            elif o.k == "call":
+                prim_src = o
+            ok = prim_src is not None and prim_src.k == "call" and prim_src.a["callee"] == E + "WalkEntry::starting_point" and any(x.k == "arg" and x.a["name"] == "file_info" for x in prim_src.walk())
+            ctx.ob("R5", "%H-has-the-root-among-its-sources", ok,
+                   "the starting point printed by %%H (and stripped by %%P) is %s; oracle: the value the entry carries (WalkEntry::starting_point of this entry), a recomputation from (path, depth) only as the fallback for entries that were not produced by a walk: `find ./d// -printf %%H` must print `./d//`" % o.fmt()[:220],
                    fn=gs, how="provenance slice (information flow)")
+        sp = ctx.fn("R5", E + "WalkEntry::starting_point")
+        if sp is not None:
+            o = prim.origin_of_local(sp, 0)
+            flds = [x.a for x in o.walk() if x.k == "field"]
+            ctx.ob("R5", "starting_point-returns-the-field", flds == ["starting_point"] and {c.a["name"] for c in o.call_nodes()} <= {"as_deref", "as_ref", "deref", "map"}, "WalkEntry::starting_point returns %s; oracle: the stored starting point" % o.fmt(), fn=sp, how="provenance slice", nontrivial=False)
+        ws = prim.field_writes(prog, E + "WalkEntry", "starting_point")
+        setters = []
+        for f, bb, obj, val, kind in ws:
+            v = val.strip() if val is not None else None
+            if v is not None and v.k == "agg" and str(v.a).endswith("None"):
+                continue
+            setters.append((f, v))
+        ok = len(setters) == 1 and setters[0][0].path == E + "WalkEntry::with_starting_point"
+        if ok:
+            v = setters[0][1]
+            ok = v is not None and v.k == "agg" and str(v.a).endswith("Some") and any(x.k == "arg" and x.a["name"] == "starting_point" for x in v.walk()) and {c.a["name"] for c in v.call_nodes()} <= {"clone", "deref", "as_ref", "into", "from"}
+        ctx.ob("R5", "starting_point-single-writer", ok, "WalkEntry.starting_point is set (other than to None in constructors) by %s; oracle: only with_starting_point, storing its argument unchanged" % [(f.path.split("::")[-1], v.fmt()[:80] if v is not None else "?") for f, v in setters], fn=setters[0][0] if setters else None, how="field writers")
+        pd = ctx.fn("R5", C.PROCESS_DIR)
+        if pd is not None:
+            # every entry obtained from the walker is tagged with the starting point of this walk, spelled as given
+            fws = [(b, t) for b, t in pd.calls() if t.callee == E + "WalkEntry::from_walkdir"]
+            ctx.floor("R5", "walker results converted in process_dir", len(fws), 1)
+            for b, t in fws:
+                uses = []
+                d = t.dest.local if t.dest is not None and t.dest.is_local() else None
+                tagged = False
+                desc = "?"
+                for b2, t2 in pd.calls():
+                    if any(a.place is not None and a.place.is_local() and a.place.local == d for a in t2.args):
+                        uses.append(t2)
+                if len(uses) == 1 and uses[0].j.get("callee_name") == "map" and (uses[0].callee or "").startswith("std::result::Result"):
+                    clo = prim.origin_of_operand(pd, uses[0].args[1]).strip()
+                    for cf in prog.closures_of(pd):
+                        if clo.k == "agg" and cf.path.split("::")[-1] in str(clo.a):
+                            ro = prim.resolve_upvars(prog, cf, prim.origin_of_local(cf, 0)).strip()
+                            desc = ro.fmt()[:200]
+                            if ro.k == "call" and ro.a["callee"] == E + "WalkEntry::with_starting_point" and len(ro.kids) == 2:
+                                ent, val = ro.kids[0].strip(), ro.kids[1]
+                                names = {c.a["name"] for c in val.call_nodes()}
+                                tagged = ent.k == "arg" and names <= {"from", "new", "into", "as_ref", "deref", "clone"} and any(x.k == "arg" and x.a["name"] == "dir" for x in val.walk()) and not c07.non_identity(val)
+                ctx.ob("R5", "every-walked-entry-carries-the-starting-point", tagged,
+                       "the result of WalkEntry::from_walkdir in process_dir is passed on as %s; oracle: Result::map(.., |entry| entry.with_starting_point(<the `dir` argument, unchanged>)) before anything else looks at it" % desc,
+                       fn=pd, where=prim.site(pd, b), how="def-use + provenance slice through the closure")
     ft = ctx.fn("R2", P + "format_non_link_file_type")
     if ft is not None:
         adtf = prog.adts.get(E + "FileType")
